@@ -60,7 +60,12 @@ def run_sharded(prop, tier, seed, nshards, timeout):
     if not getattr(mod, 'NO_OPTIMIZED_FLAVOUR', False):
         # (-W error: the interpreter's warning policy - a DeprecationWarning from a call the library makes becomes an
         # exception, as under PYTHONWARNINGS=error or a test suite's filterwarnings = error)
-        for flags in ((('-O',), ('-W', 'error')) if tier == 'quick' else (('-O',), ('-OO',), ('-W', 'error'))):
+        flavours = [('-O',), ('-W', 'error')] + ([('-OO',)] if tier != 'quick' else [])
+        if not getattr(mod, 'NO_BB_FLAVOUR', False):
+            # -bb: comparing bytes with str / int raises BytesWarning instead of quietly answering False.  Not for the
+            # checks that list raw events: the event listing prints its payload with str(bytes) on purpose.
+            flavours.append(('-bb',))
+        for flags in flavours:
             flag = ''.join(flags)
             out = os.path.join(tmpdir, f'shard0{flag}.json')
             cmd = [sys.executable, *flags, '-m', 'vlib.main', prop, tier, '--shard', '0', str(nshards), '--out', out]
